@@ -14,7 +14,7 @@ import (
 // C11: node positions and token lists describe exactly the text the node consumed.
 
 func c11Opts(r *mon.RNG, i int) *gram.GenOpts {
-	prof := []int{gram.ProfStateful, gram.ProfStateful, gram.ProfDefault, gram.ProfLower}[i%4]
+	prof := []int{gram.ProfStateful, gram.ProfStateful, gram.ProfDefault, gram.ProfLower, gram.ProfScanCfg}[i%5]
 	return &gram.GenOpts{Profile: prof, MaxProds: 5, Budget: 14 + r.Intn(12), Depth: 2 + r.Intn(3), TokKinds: false, Unions: true,
 		SharePrefix: 7, CaptureBias: 3, SubBias: 7, AllowBang: false, ForcePos: true, NamesElided: i%9 == 8}
 }
@@ -228,7 +228,7 @@ func init() {
 		Assumptions: []string{"Pos/EndPos are only judged for nodes that consumed at least one token, in grammars that do not name elided types (as the property says)"},
 		Batches:     func(t string) int { return pick(t, 4, 16) },
 		Floor:       func(t string) int { return pick(t, 1000, 20000) },
-		TimeoutSec:  func(t string) int { return pick(t, 900, 3600) },
+		TimeoutSec:  func(t string) int { return pick(t, 300, 3600) },
 		Prepare:     gramPrepare("C11", func(t string) int { return pick(t, 90, 220) }, c11Opts, witnessExtra, false),
 		Child:       c11Child,
 	})
